@@ -1,6 +1,5 @@
 """Properties not claimed, each with the measured reason (DESIGN.md section 2)."""
 NOT_APPLICABLE = {
-    "C04": "Combinator semantics = behaviour of nested hosted commands under all resolution orders; measured: Command::all over two one-task commands gets no verdict in 60 min (symex crawls through forward/Fuse/Map around a Command), builder chains are async blocks over the real request futures (no verdict in 20 min for the first poll of one kv request), flatten_unordered/FuturesUnordered add an intrusive linked list with atomics. Re-measured in this round with every precision fix for the smallest primitives, whose tasks are crux's own async blocks (coroutine enums, unions for CBMC): Command::event(x) followed by ONE events() call runs out of memory at 16 GB after 10 min; done+event with five observations at 25 GB; Command::notify_shell(op) passes 17 GB; event.map_event / done.then(event) / event.and(event) pass 6-15 GB without a verdict (harnesses kept in kani/core_harness/src/c04_primitives.rs, run natively only). Only Command::done() alone (futures::future::ready, no coroutine) is decidable (3 s), which is not a claim worth the name. Comparison with a reference model over enumerated programs would be exploration, not this technique.",
     "C11": "The observable risk is hash-seed dependence of http_types::Headers (a HashMap) and of the hand-written Response equality; a single HashMap insert+get under Kani's nondeterministic RandomState keys does not get a SAT verdict in 9 min (SipHash), a concrete http_types::Response::new(200) does not either; the rest (no clock/randomness in the runtime, cross-process replay) is whole-runtime (see C01).",
     "C14": "Fidelity of method/URL/headers/body runs through url::Url::parse, http_types header maps and Display formatting (to_string() is the subject, so fmt cannot be stubbed): input-length-proportional third-party parsers, IDNA/percent-encoding tables; no integer kernel to isolate.",
     "C18": "The timer is select_biased! over a ShellRequest and a futures::oneshot inside a command task, followed by a second request; deciding 'at most one outcome for every interleaving' needs the executor, two resolve closures and oneshot's lock - the combination that does not terminate under Kani; the id counter (fetch_add on a static) is trivially unique below 2^64 and needs no solver.",
